@@ -30,7 +30,7 @@ var atoms = []hdr{
 	{"AUTHORIZATION", "q"},
 	{"Proxy-Authorization", "p"},
 	{"Cookie", "c=1"},
-	{"X-U", "grüße ✓ 日本"},
+	{"X-U", "Grüße ✓ 日本 <&> \"q\""},
 }
 
 type hdrCase struct {
@@ -83,7 +83,7 @@ func headerCases(max int) []hdrCase {
 }
 
 // publish header atoms (canonical names plus one lower-case name; no repeated names are possible in a JSON object).
-var pubAtoms = []hdr{{"X-A", "v"}, {"X-B", ""}, {"X-U", "grüße ✓"}, {"x-low", "1"}, {"X-C", "a,b"}}
+var pubAtoms = []hdr{{"X-A", "v"}, {"X-B", ""}, {"X-U", "Grüße ✓ <&>"}, {"x-low", "1"}, {"X-C", "a,b"}}
 
 var specialBodies = []string{
 	"c328", "e282", "f09f92", "eda080", "c0af", "fffe", "efbbbf7b7d", // invalid UTF-8, BOM
@@ -217,8 +217,14 @@ func generate(r *runner.Run, emit func(job) bool) {
 		hexes = append(hexes, fmt.Sprintf("%02x", a))
 	}
 	emitBodies(hexes, nil)
-	if maxLen >= 2 {
+	// quick tier: the two-byte strings starting with a byte from the code's visible shortcuts
+	// (NUL, space, UTF-8 lead byte of U+0085/U+00A0, 0xFF); thorough tier: all 65 536
+	quickFirst := map[int]bool{0x00: true, 0x20: true, 0xC2: true, 0xFF: true}
+	{
 		for a := 0; a < 256 && ok; a++ {
+			if maxLen < 2 && !quickFirst[a] {
+				continue
+			}
 			hexes = hexes[:0]
 			for b := 0; b < 256; b++ {
 				hexes = append(hexes, fmt.Sprintf("%02x%02x", a, b))
